@@ -288,6 +288,29 @@ def _accounting(ctx, repo, cg, cfuncs, base_lock, assume, concurrency=True):
                 ok = any((isinstance(e, ast.Name) and pol) for e, pol in atoms_at(a, f.node) if isinstance(e, ast.Name) and _is_capacity_result(e.id, f))
                 ctx.ob("C18-R4", f.fq, "(A1) bytes are added only under a successful capacity check (recover_memory result)", ok, node=a, construct=f"total += under capacity check in {f.name}",
                        msg="bytes are added to the total without a successful recover_memory(): the cache can exceed its configured limit")
+            # A5: a placeholder for I/O submitted here may only overwrite an entry whose bytes were taken off the total first
+            if any(isinstance(c, ast.Call) and callee_name(c) == "submit" for c in stmts):
+                sub_names = {g.name for g in cfuncs if any(isinstance(x, ast.AugAssign) and isinstance(x.op, ast.Sub) and dotted(x.target) == f"self.{TOTAL}" for x in walk_local(g.node))}
+                for st in stores:
+                    key = next((t.slice for t in st.targets if isinstance(t, ast.Subscript) and dotted(t.value) == f"self.{ENT}"), None)
+                    n += 1
+                    ctx.instance("C18-R4", f.fq, f"overwrite by {src(st)[:50]}")
+                    blk = getattr(st, "_parent", None)
+                    sibs = next((getattr(blk, fld) for fld in ("body", "orelse", "finalbody") if isinstance(getattr(blk, fld, None), list) and st in getattr(blk, fld)), [])
+                    before = sibs[:sibs.index(st)] if st in sibs else []
+                    unloaded = any(isinstance(b, ast.Expr) and isinstance(b.value, ast.Call) and isinstance(b.value.func, ast.Attribute) and b.value.func.attr in sub_names and
+                                   dotted(b.value.func.value) == "self" and b.value.args and key is not None and src(b.value.args[0]) == src(key) for b in before)
+                    absent = False
+                    for e, pol in atoms_at(st, f.node):
+                        if pol and isinstance(e, ast.Compare) and len(e.ops) == 1 and isinstance(e.ops[0], ast.Is) and isinstance(e.comparators[0], ast.Constant) and e.comparators[0].value is None and isinstance(e.left, ast.Name):
+                            d = [a for a in walk_local(f.node) if isinstance(a, ast.Assign) and any(isinstance(t, ast.Name) and t.id == e.left.id for t in a.targets)]
+                            if len(d) == 1 and isinstance(d[0].value, ast.Call) and isinstance(d[0].value.func, ast.Attribute) and d[0].value.func.attr == "get" and \
+                                    dotted(d[0].value.func.value) == f"self.{ENT}" and key is not None and d[0].value.args and src(d[0].value.args[0]) == src(key):
+                                absent = True
+                    ctx.ob("C18-R4", f.fq, "(A5) the entry is overwritten only after its bytes were taken off the total (subtracting routine on the same key) or when it is known absent", unloaded or absent, node=st,
+                           construct=f"A5 entry overwritten without un-accounting in {f.name}",
+                           msg=f"{f.name} replaces the table entry of `{src(key) if key is not None else '?'}` while the bytes of the entry it replaces stay in the total: after the write completes the new size is added on top, so the total exceeds the sum of the cached entries and grows with every overwrite",
+                           path=f"{f.fq} critical section @{st.lineno}")
             # A2/A3
             for s_ in subs:
                 n += 1
@@ -457,6 +480,7 @@ MUTATION_SCOPE = ['db/file_cache:FileCache._load_file',
                   'db/df_cache:PandasDataFrameCache.update']
 
 SEEDS = [
+    Seed("update-overwrites-without-unload", "fault", FC, "                self._unload_file(file_name)\n                future = self.executor.submit(self._write_file", "                future = self.executor.submit(self._write_file", rule="C18-R4"),
     Seed("read-outside-lock", "fault", FC, "        with self.file_futures_lock:\n            info = self.file_futures.get(file_name)\n            if info is None:\n                tinfo(f\"get_file: {file_name}\")",
          "        info = self.file_futures.get(file_name)\n        with self.file_futures_lock:\n            if info is None:\n                tinfo(f\"get_file: {file_name}\")", rule="C18-R1"),
     Seed("unload-without-lock", "fault", FC, "        with self.file_futures_lock:\n            self.file_access_times = [(t, fn) for t, fn in self.file_access_times if fn != file_name]\n            heapq.heapify(self.file_access_times)\n            self._unload_file(file_name)",
